@@ -398,3 +398,38 @@ Proof.
   exists (b32_of_bits 0), (b32_of_bits 1123942400).
   repeat split; try reflexivity; try lia; vm_compute; lra.
 Qed.
+
+(* ======================================================================== *)
+(* non-vacuity of the per-sub range theorems                                  *)
+(* ======================================================================== *)
+(* float_output_in_range: "/fa" -1..10, fresh binding *)
+Lemma in_range_nonvacuous :
+  used ex_sub = true /\ s_type ex_sub = ch_f /\ s_scale ex_sub = 0 /\ fle (s_min ex_sub) (s_max ex_sub) /\
+  map (fun m => match m with MsgF _ c => bits_of_b32 c | _ => -1 end)
+      (sub_output (fun x => x) ex_sub ex_v1) = [1071644672].
+Proof. repeat split; try (vm_compute; reflexivity); try (vm_compute; exact I). Qed.
+
+(* int_output_in_range: "/pa" 0..127, slot value 0.5 gives 64 *)
+Definition ex_int_sub : sub := bound_sub (fun x => x) ex_int_param.
+Lemma in_range_int_nonvacuous :
+  used ex_int_sub = true /\ s_type ex_int_sub = ch_i /\
+  finite32 (s_min ex_int_sub) /\ finite32 (s_max ex_int_sub) /\
+  val (s_min ex_int_sub) = IZR 0 /\ val (s_max ex_int_sub) = IZR 127 /\
+  sub_output (fun x => x) ex_int_sub (b32_of_bits 1056964608) = [MsgI [47; 112; 97] 64].
+Proof.
+  repeat split; try (vm_compute; reflexivity); vm_compute; lra.
+Qed.
+
+(* log_in_range: "/lga" 20..20000 log scale, with the identity as logf/expf *)
+Definition ex_log_param : param :=
+  mkParam [47; 108; 103; 97] ch_f (Some (b32_of_bits 1101004800)) (Some (b32_of_bits 1184645120))
+          true false false.
+Definition ex_log_sub : sub := bound_sub (fun x => x) ex_log_param.
+Lemma log_in_range_nonvacuous :
+  let mn := b32_of_bits 1101004800 in let mx := b32_of_bits 1184645120 in
+  used ex_log_sub = true /\ s_type ex_log_sub = ch_f /\ s_scale ex_log_sub = 1 /\
+  finite32 mn /\ finite32 mx /\ (0 < val mn)%R /\ (val mn <= val mx)%R /\
+  s_min ex_log_sub = mn /\ s_max ex_log_sub = mx.
+Proof.
+  cbn zeta. repeat split; try (vm_compute; reflexivity); vm_compute; lra.
+Qed.
